@@ -72,6 +72,12 @@ let handle = function
      | Ok st -> "Ok " ^ show_zone st.u_visible ^ " " ^ (if st.u_fin then "1" else "0")
      | Err e -> "Err" ^ string_of_int (int_of_n e)
      | Panic _ -> "Panic" | OutOfFuel -> "OutOfFuel")
+  | "apm" :: z0 :: uss ->
+    (match c10_transfers (List.map parse_rr (split_on '.' z0))
+             (List.map (fun us -> List.map parse_upd (split_on ',' us)) uss) with
+     | Ok zs -> "Ok " ^ String.concat " " (List.map show_zone zs)
+     | Err e -> "Err" ^ string_of_int (int_of_n e)
+     | Panic _ -> "Panic" | OutOfFuel -> "OutOfFuel")
   | ["ck"; first; h] -> if c10_check (first = "1") (parse_hdr h) then "reject" else "pass"
   | _ -> failwith "bad case line"
 let () = main handle
